@@ -102,6 +102,30 @@ func (e *Enc) call(ins ssa.Instruction, c *ssa.CallCommon, res *ssa.Call) {
 		name = funcName(callee)
 	}
 	if _, isLib := e.w.ModSet[callee]; isLib {
+		if e.frameAll() {
+			for k, wc := range e.w.WE[callee] {
+				if k == "T:uint8" || ghostPlain(k) {
+					continue
+				}
+				if wc.other {
+					e.oblige("framewrite", "callee-writes:"+shortCallee(name)+":"+k, "", pos, e.guardGoal("false"))
+				}
+				for i := range wc.params {
+					if i < len(args) {
+						var root string
+						switch args[i].S {
+						case "Slice":
+							root = e.rootOf(app("sarr", args[i].T))
+						case "Ref":
+							root = e.rootOf(args[i].T)
+						default:
+							continue
+						}
+						e.oblige("framewrite", fmt.Sprintf("callee-writes:%s:arg%d:%s", shortCallee(name), i, k), "", pos, e.guardGoal(app(">", root, e.allocCounter(e.entryHeap))))
+					}
+				}
+			}
+		}
 		for _, ip := range e.implicitPre(callee) {
 			what := "recv:" + descOf(e.exprText(c.Args[ip.param], ins))
 			if ip.param > 0 || callee.Signature.Recv() == nil {
@@ -613,8 +637,42 @@ func (e *Enc) appendCall(ins ssa.Instruction, c *ssa.CallCommon, res *ssa.Call, 
 // frame obligations (C08): byte cells may only be written in memory allocated during this call,
 // unless the contract declares the written parameter with `opt writes <param>`.
 
+// frameAll: the function's contract says `opt frame-all 1`: every store, in-place append and callee write must target
+// memory allocated during this call (class `framewrite`). In return the function counts as writing nothing that existed
+// before it was called (the syntactic write analysis is overridden for it).
+func (e *Enc) frameAll() bool { return e.ct != nil && e.ct.Opts["frame-all"] != "" }
+
+// frameKey: the contract lists heap key k under `opt frame-keys`: stores to k in this function are proved (class
+// framewrite) to hit fresh memory only, and in return they are not counted as writes to pre-existing memory.
+func (e *Enc) frameKey(k string) bool {
+	if e.ct == nil {
+		return false
+	}
+	for _, x := range strings.Fields(e.ct.Opts["frame-keys"]) {
+		if x == k {
+			return true
+		}
+	}
+	return false
+}
+
 func (e *Enc) frameCheck(st *ssa.Store, addr string) {
 	t := st.Addr.Type().Underlying().(*types.Pointer).Elem()
+	if !e.frameAll() && typeKey(t) != "uint8" {
+		for _, k := range e.w.storeKey(st.Addr) {
+			if e.frameKey(k) && !isLocalNonEscaping(st.Addr) {
+				e.oblige("framewrite", descOf(e.exprText(st.Addr, st)), "", st.Pos(), e.guardGoal(app(">", e.rootOf(addr), e.allocCounter(e.entryHeap))))
+				return
+			}
+		}
+	}
+	if e.frameAll() && typeKey(t) != "uint8" {
+		if isLocalNonEscaping(st.Addr) {
+			return
+		}
+		e.oblige("framewrite", descOf(e.exprText(st.Addr, st)), "", st.Pos(), e.guardGoal(app(">", e.rootOf(addr), e.allocCounter(e.entryHeap))))
+		return
+	}
 	if typeKey(t) != "uint8" {
 		return
 	}
@@ -632,6 +690,11 @@ func (e *Enc) frameCheck(st *ssa.Store, addr string) {
 
 func (e *Enc) byteWriteCheck(ins ssa.Instruction, dstV ssa.Value, dst Val, what string, when string) {
 	st, ok := under(dstV.Type()).(*types.Slice)
+	if ok && e.frameAll() && typeKey(st.Elem()) != "uint8" {
+		goal := implies(when, app(">", e.rootOf(app("sarr", dst.T)), e.allocCounter(e.entryHeap)))
+		e.oblige("framewrite", what+":"+descOf(e.exprText(dstV, ins)), "", ins.Pos(), e.guardGoal(goal))
+		return
+	}
 	if !ok || typeKey(st.Elem()) != "uint8" {
 		return
 	}
